@@ -38,6 +38,7 @@ fn main() {
         "lex-fuzz" => xv::lexrep::cmd_fuzz(rest),
         "loc-replay" => xv::loc::cmd_replay(rest),
         "locfn-replay" => xv::loc::cmd_fn_replay(rest),
+        "textcodec-record" => xv::textcodec::cmd_record(rest),
         other => {
             eprintln!("unknown subcommand {}", other);
             2
